@@ -314,6 +314,15 @@ Definition m_composed_cmp (a b : nrepr) : outcome comparison :=
 Definition m_lc_composed_cmp (a b : nrepr) : outcome comparison :=
   iters_composed LOOP_FUEL m_label_lc_composed_cmp lc_composed_arm_none_none (iter_of a) (iter_of b).
 
+(* the operators ==, <, cmp, canonical_cmp of Name / RelativeName / ParsedName
+   are the trait functions above (T1: <type>_ord_is_name_cmp; PartialEq,
+   PartialOrd and CanonicalOrd are anchored as delegations) *)
+Definition ord_via (delegates : bool) (f : nrepr -> nrepr -> outcome comparison) (a b : nrepr)
+  : outcome comparison := if delegates then f a b else Err 0.
+Definition m_name_ord := ord_via name_ord_is_name_cmp m_name_cmp.
+Definition m_relname_ord := ord_via relname_ord_is_name_cmp m_relname_cmp.
+Definition m_parsed_ord := ord_via parsed_ord_is_name_cmp m_name_cmp.
+
 (* Hash for Name / RelativeName / ParsedName *)
 Definition m_name_hash (a : nrepr) : outcome bytes := iters_hash LOOP_FUEL (iter_of a).
 
@@ -853,6 +862,9 @@ Definition c04_name_eq (a b : bytes) := m_name_eq (NFlat a) (NFlat b).
 Definition c04_name_eq_iter (a b : bytes) := iters_eq LOOP_FUEL (IFlat a) (IFlat b).
 Definition c04_name_cmp (a b : bytes) := m_name_cmp (NFlat a) (NFlat b).
 Definition c04_name_hash (a : bytes) := m_name_hash (NFlat a).
+Definition c04_name_ord (a b : bytes) := m_name_ord (NFlat a) (NFlat b).
+Definition c04_relname_eq (a b : bytes) := m_relname_eq (NFlat a) (NFlat b).
+Definition c04_relname_ord (a b : bytes) := m_relname_ord (NFlat a) (NFlat b).
 Definition c04_composed (a b : bytes) := m_composed_cmp (NFlat a) (NFlat b).
 Definition c04_composed_iter (a b : bytes) :=
   iters_composed LOOP_FUEL m_label_composed_cmp composed_arm_none_none (IFlat a) (IFlat b).
